@@ -11,7 +11,9 @@ from mk_dyn_templates import locals_of
 
 FNS = [('fmt', 'source/postcard-schema/src/schema/fmt.rs', ['is_prim', 'fmt_owned_dmt_to_buf', 'discover_tys']),
        ('dynser', 'source/postcard-dyn/src/ser.rs', ['to_stdvec_dyn', 'right', 'from']),
-       ('dynde', 'source/postcard-dyn/src/de.rs', ['from_slice_dyn', 'right', 'take_one'])]
+       ('dynde', 'source/postcard-dyn/src/de.rs', ['from_slice_dyn', 'right', 'take_one']),
+       ('derive_ms', 'source/postcard-derive/src/max_size.rs', ['do_derive_max_size', 'add_trait_bounds', 'max_size_sum', 'sum_fields']),
+       ('derive_schema', 'source/postcard-derive/src/schema.rs', ['do_derive_schema', 'new', 'generate_type', 'generate_struct', 'generate_variants', 'add_trait_bounds'])]
 
 
 def fn_template(text, name):
